@@ -13,11 +13,12 @@ export default async function interpretWebAssemblyModule(
   /** @param {any} strRef */
   function gcStringToJS(strRef) {
     const len = exports.__strLen(strRef);
-    let result = '';
+    // Strings are stored as UTF-8 bytes (__strGet sign-extends; Uint8Array keeps the low 8 bits)
+    const bytes = new Uint8Array(len);
     for (let i = 0; i < len; i++) {
-      result += String.fromCharCode(exports.__strGet(strRef, i));
+      bytes[i] = exports.__strGet(strRef, i);
     }
-    return result;
+    return new TextDecoder('utf-8', { ignoreBOM: true }).decode(bytes);
   }
 
   const builtins = {
